@@ -50,6 +50,18 @@ func main() {
 		fmt.Println("  named:", f.NamedExpressions)
 		dumpBlock(f.Body, "  ")
 	}
+	for i, t := range m.Types {
+		fmt.Printf("t%d %q %T %+v\n", i, t.Name, t.Inner, t.Inner)
+	}
+	for i, c := range m.Constants {
+		fmt.Printf("c%d %+v\n", i, c)
+	}
+	for i, g := range m.GlobalVariables {
+		fmt.Printf("g%d %s ty=%d init=%v\n", i, g.Name, g.Type, g.Init)
+	}
+	for i, e := range m.GlobalExpressions {
+		fmt.Printf("ge%d %T %#v %s\n", i, e.Kind, e.Kind, litType(e.Kind))
+	}
 	for i := range m.Functions {
 		dump(m.Functions[i].Name, &m.Functions[i])
 	}
